@@ -53,6 +53,10 @@ struct World {
     opened: BTreeSet<u64>,
     peer_ids: BTreeMap<u64, ckb_network::PeerId>,
     next_number: u64,
+    /// dep group cells (committed): [always-success], [always-success, unknown], [unknown,
+    /// always-success]; and the out point nobody knows
+    groups: Vec<OutPoint>,
+    unknown_member: OutPoint,
 }
 
 impl World {
@@ -108,6 +112,8 @@ impl World {
             opened: BTreeSet::new(),
             peer_ids: BTreeMap::new(),
             next_number: 1,
+            groups: Vec::new(),
+            unknown_member: OutPoint::new([0xd9; 32].pack(), 7),
             env,
         };
         // funding transactions, stored as fetched
@@ -130,6 +136,26 @@ impl World {
             for i in 0..3u32 {
                 w.cells.push((OutPoint::new(tx.hash(), i), 1000_0000_0000));
             }
+        }
+        // three dep group cells: complete, and two with a member that no store / pool knows
+        {
+            let code = w.dep.out_point();
+            let unk = w.unknown_member.clone();
+            let datas: Vec<Bytes> = vec![
+                vec![code.clone()].pack().as_bytes(),
+                vec![code.clone(), unk.clone()].pack().as_bytes(),
+                vec![unk, code].pack().as_bytes(),
+            ];
+            let outs: Vec<CellOutput> = (0..3)
+                .map(|_| CellOutput::new_builder().capacity((1000_0000_0000u64).pack()).lock(w.lock.clone()).build())
+                .collect();
+            let tx = TransactionBuilder::default()
+                .outputs(outs)
+                .outputs_data(datas.iter().map(|d| d.pack()).collect::<Vec<_>>())
+                .witness(Bytes::from(vec![0xf1]).pack())
+                .build();
+            w.commit(&tx);
+            w.groups = (0..3u32).map(|i| OutPoint::new(tx.hash(), i)).collect();
         }
         w
     }
@@ -267,7 +293,7 @@ fn run_history(rep: &mut Report, seed: u64, len: usize) -> (Vec<String>, Vec<Str
         format!("ann {}", out.join(" "))
     };
 
-    for _step in 0..len {
+    for step in 0..len {
         rep.evaluations += 1;
         match rng.below(10) {
             0 | 1 | 2 | 3 | 4 => {
@@ -288,6 +314,7 @@ fn run_history(rep: &mut Report, seed: u64, len: usize) -> (Vec<String>, Vec<Str
                     Fault::ScriptMissing,
                     Fault::Resubmit,
                 ]);
+                let mut group_mode = "";
                 let tx: TransactionView = if fault == Fault::Resubmit && !pending_pool.is_empty() {
                     let id = *rng.pick(&pending_pool);
                     resubmitted.insert(id);
@@ -363,6 +390,24 @@ fn run_history(rep: &mut Report, seed: u64, len: usize) -> (Vec<String>, Vec<Str
                         }
                         _ => {}
                     }
+                    // dep groups (decided from seed and step, not drawn: the random stream of
+                    // the histories stays what it was): a valid transaction names the code
+                    // through a complete group; an unknown dep becomes the unknown MEMBER of a
+                    // group that also holds the code
+                    let gm = fnv(&format!("{}:{}:dep-group", seed, step)) % 4;
+                    let group_dep = |o: &OutPoint| CellDep::new_builder().out_point(o.clone()).dep_type(DepType::DepGroup.into()).build();
+                    if fault == Fault::None && gm == 0 {
+                        deps = vec![group_dep(&w.groups[0])];
+                        group_mode = "complete";
+                    } else if fault == Fault::UnknownDep && gm < 3 {
+                        deps.pop();
+                        if gm == 2 {
+                            // the group alone: the code is a member of it
+                            deps.clear();
+                        }
+                        deps.push(group_dep(&w.groups[1 + (gm % 2) as usize]));
+                        group_mode = "unknown-member";
+                    }
                     let n_o = outputs.len();
                     TransactionBuilder::default()
                         .inputs(inputs)
@@ -434,7 +479,25 @@ fn run_history(rep: &mut Report, seed: u64, len: usize) -> (Vec<String>, Vec<Str
                 let capacity = fault != Fault::CapacityOverflow && !lacks;
                 let script = if fault == Fault::ScriptMissing { "-".to_string() } else { cycles.unwrap_or(0).to_string() };
                 let inputs: Vec<OutPoint> = tx.input_pts_iter().collect();
-                let deps: Vec<OutPoint> = tx.cell_deps_iter().map(|d| d.out_point()).collect();
+                // dep groups expanded like resolve_tx does: the group cell, then its members
+                let deps: Vec<OutPoint> = tx
+                    .cell_deps_iter()
+                    .flat_map(|d| {
+                        let mut v = vec![d.out_point()];
+                        if d.dep_type() == DepType::DepGroup.into() {
+                            match w.groups.iter().position(|g| *g == d.out_point()) {
+                                Some(0) => v.push(w.dep.out_point()),
+                                Some(1) => v.extend([w.dep.out_point(), w.unknown_member.clone()]),
+                                Some(2) => v.extend([w.unknown_member.clone(), w.dep.out_point()]),
+                                _ => {}
+                            }
+                        }
+                        v
+                    })
+                    .collect();
+                if !group_mode.is_empty() {
+                    rep.count_class(&format!("dep-group:{}", group_mode));
+                }
                 let gen_tx_hash = w.dep.out_point().tx_hash();
                 // the genesis always-success transaction is known to the store
                 let gid = w.id(&gen_tx_hash);
@@ -458,7 +521,7 @@ fn run_history(rep: &mut Report, seed: u64, len: usize) -> (Vec<String>, Vec<Str
                     any_ok = true;
                     if !matches!(fault, Fault::None | Fault::Resubmit) {
                         rep.violate(
-                            &format!("C18|admitted-invalid|{:?}", fault),
+                            &(if group_mode == "unknown-member" { "C18|admitted-invalid|DepGroupUnknownMember".to_string() } else { format!("C18|admitted-invalid|{:?}", fault) }),
                             "send_transaction admitted a transaction that must be rejected",
                             replay(seed),
                         );
